@@ -36,7 +36,7 @@ CHECKS = {
         engine="PYX",
         category="model_checking",
         technique="explicit-state breadth-first search of the product {real client socket, lossy/duplicating/reordering/rewriting network}; every client transition executed on the implementation and compared with a reference model over the ids seen on the wire",
-        text="BFS with canonical state de-duplication over K requests and D deviations (duplicate / rewrite one field incl. ids +-2^32 / |2^31, Reports with foreign or non-echoed ids / truncate; loss and reordering free) for v1, v2c, v3 (noAuth and authPriv). Each receive outcome (value of request k, decode error, auth error, still waiting) must equal the model's. The alphabet also holds the empty datagram, community + 256 octets, and a looped-back request PDU with a foreign request-id.",
+        text="BFS with canonical state de-duplication over K requests and D deviations (duplicate / rewrite one field incl. ids +-2^32 / |2^31, Reports with foreign or non-echoed ids / truncate; loss and reordering free) for v1, v2c, v3 (noAuth and authPriv). Each receive outcome (value of request k, decode error, auth error, still waiting) must equal the model's. The alphabet also holds the empty datagram, community + 256 octets, a looped-back request PDU with a foreign request-id, outer lengths written in four octets, and long replies cut inside their own header. The same faults are enumerated as agent scripts through both public clients (K calls - get, or steps of one getnext / getbulk iterator - with at most one (thorough: two) extra / rewritten / late datagram and one dropped reply), and pairs of consecutive requests whose random draws are chosen through the RNG seam.",
         note="state futures assumed to depend only on the fingerprint; id collisions detected from concrete ids and skipped",
         ref="DESIGN.md s.3 C04",
     ),
@@ -148,7 +148,7 @@ CHECKS = {
         engine="PYX",
         category="fault_enumeration",
         technique="exhaustive enumeration of arrival schedules; async client on a virtual-time event loop (exact), sync client on the real clock with tolerance and re-confirmation",
-        text="All schedules of k stray datagrams at spacings from a small set, optionally followed by the matching reply before/after the deadline, x {v1,v2c,v3}: async must deliver iff the reply arrives by T and time out at exactly T (virtual time); sync must return by T + slack. Plus floods and oversize / other-version strays across the deadline, time-outs of 1.3 s and beyond 2^32 ns, call sequences on one session, no blocking sleep in the async client, and a new async session after a timed-out one.",
+        text="All schedules of k stray datagrams at spacings from a small set, optionally followed by the matching reply before/after the deadline, x {v1,v2c,v3}: async must deliver iff the reply arrives by T and time out at exactly T (virtual time); sync must return by T + slack. Plus floods and oversize / other-version strays across the deadline, time-outs of 1.3 s and beyond 2^32 ns, call sequences on one session, no blocking sleep in the async client, a new async session after a timed-out one, and 1 / 16 / 40 sync sessions in threads waiting at the same time (each call keeps its own time-out).",
         note="sync half depends on the real clock (tolerance 0.5T, violations re-confirmed); includes multi-call sequences on one session and v3 session entry; the per-datagram re-armed time-out of the pinned code was repaired (8939f69, c1a09e7)",
         ref="DESIGN.md s.3 C18",
     ),
